@@ -30,6 +30,15 @@ pub open spec fn matching(rs: Seq<CommandHistoryRecord>, c: CommandHistoryCriter
 pub proof fn lemma_matching_len(rs: Seq<CommandHistoryRecord>, c: CommandHistoryCriteria, n: int)
     requires 0 <= n ensures matching(rs, c, n).len() == count_matching(rs, c, n) decreases n
 { if n > 0 { lemma_matching_len(rs, c, n - 1); } }
+// ---- C07: the history lists every recorded command in order ----
+/// the history record of the command stored under version v, if one is stored (AggregateStore::get_command + into_history_record, ASSUMED)
+pub uninterp spec fn stored_rec(s: AggregateStore, id: MyHandle, v: u64) -> Option<CommandHistoryRecord>;
+pub assume_specification [AggregateStore::vx_get_record] (s: &AggregateStore, id: &MyHandle, v: u64) -> (r: Result<CommandHistoryRecord, StoreError>)
+    ensures match r { Ok(c) => stored_rec(*s, *id, v) == Some(c) && c.version == v, Err(_) => stored_rec(*s, *id, v) is None };
+/// what is held is the history from the first command on, without a gap: entry i is the record of command i + 1
+pub open spec fn complete_from_the_first(rs: Seq<CommandHistoryRecord>, s: AggregateStore, id: MyHandle) -> bool {
+    forall |i: int| 0 <= i < rs.len() ==> stored_rec(s, id, (i + 1) as u64) == Some(#[trigger] rs[i]) && rs[i].version == i + 1
+}
 pub open spec fn min_int(a: int, b: int) -> int { if a <= b { a } else { b } }
 /// the page: the matches from position `offset`, at most `rows` of them
 pub open spec fn page_of(ms: Seq<CommandHistoryRecord>, offset: int, rows: int) -> Seq<CommandHistoryRecord> {
@@ -46,15 +55,31 @@ def build():
     U.outside('''
 impl CommandHistoryRecord { pub fn matches(&self, _c: &CommandHistoryCriteria) -> bool { unimplemented!() } }
 pub struct AggregateStore;
+pub struct StoreError(pub u8);
+impl AggregateStore { pub fn vx_get_record(&self, _id: &MyHandle, _v: u64) -> Result<CommandHistoryRecord, StoreError> { unimplemented!() } }
 /// stands for `Vec::with_capacity(n)`, with the proof obligation n <= reserve_bound() (fixed by the caller's contract)
 pub fn vx_reserve<T>(_n: usize) -> Vec<T> { unimplemented!() }
 ''')
-    U.add('#[verifier::external_type_specification] #[verifier::external_body] pub struct ExAggregateStore(AggregateStore);')
+    U.add('#[verifier::external_type_specification] #[verifier::external_body] pub struct ExAggregateStore(AggregateStore);\n#[verifier::external_type_specification] #[verifier::external_body] pub struct ExStoreError(StoreError);\npub type AggregateStoreError = StoreError;')
     U.struct(HI, 'CommandHistoryRecord', derive=['Clone'])
     U.struct(HI, 'CommandHistoryCriteria', derive=[])
     U.struct(HI, 'CommandHistory', derive=[])
     U.add(SPEC)
     U.impl('impl AggregateStore', [
+        # C07 (history clause): whatever is held -- an empty list, or the list the history cache kept from an earlier request -- is
+        # brought up to the first version that is not stored, starting from the FIRST command; nothing is skipped
+        U.fn(ST, 'AggregateStore', 'update_history_records',
+             subst=[('self.get_command(id, version)', 'self.vx_get_record(id, version)', 'R14'), ('command.into_history_record()', 'command', 'R14')],
+             requires=[('held_records_are_complete_from_the_first', 'complete_from_the_first(old(records)@, *self, *id)'),
+                       ('fewer_than_2_64_commands', 'old(records)@.len() < u64::MAX - 1 && forall |v: u64| stored_rec(*self, *id, v) is Some ==> v < u64::MAX - 1')],
+             ensures=[('every_recorded_command_from_the_first_is_listed', 'r is Ok ==> complete_from_the_first(final(records)@, *self, *id)'),
+                      ('caught_up_to_the_first_version_that_is_not_stored', 'r is Ok ==> stored_rec(*self, *id, (final(records)@.len() + 1) as u64) is None'),
+                      ('held_records_kept', 'final(records)@.len() >= old(records)@.len() && final(records)@.subrange(0, old(records)@.len() as int) == old(records)@')],
+             loops={0: {'decreases': 'u64::MAX - version', 'invariant': [
+                 ('complete', 'complete_from_the_first(records@, *self, *id) && version == records@.len() + 1 && records@.len() < u64::MAX - 1 && (forall |v: u64| stored_rec(*self, *id, v) is Some ==> v < u64::MAX - 1)'),
+                 ('kept', 'records@.len() >= old(records)@.len() && records@.subrange(0, old(records)@.len() as int) == old(records)@'),
+             ], 'ensures': [('caught_up', 'complete_from_the_first(records@, *self, *id) && stored_rec(*self, *id, (records@.len() + 1) as u64) is None && records@.len() >= old(records)@.len() && records@.subrange(0, old(records)@.len() as int) == old(records)@')]}},
+             ghost=[(('loop_end', 0), 'proof { assert(records@.subrange(0, old(records)@.len() as int) =~= old(records)@); }')]),
         U.fn(ST, 'AggregateStore', 'command_history_for_records', attrs=['#[verifier::loop_isolation(false)]'],
              subst=[('Vec::with_capacity(', 'vx_reserve(', 'R14')],
              requires=[('what_may_be_reserved_up_front', 'reserve_bound() == records@.len()')],
